@@ -74,4 +74,17 @@ theorem not_mem_showNat (n : Nat) (c : Char) (hc : c.isDigit = false) : c ∉ sh
   intro hmem
   exact isDigit_ne (showNat_all_digits n c hmem) hc rfl
 
+theorem splitFirst_append_sep (c : Char) (a b : List Char) (ha : c ∉ a) :
+    splitFirst c (a ++ c :: b) = (a, b) := by
+  induction a with
+  | nil => simp [splitFirst]
+  | cons x xs ih =>
+    have hx : x ≠ c := fun h => ha (by simp [h])
+    have hxs : c ∉ xs := fun h => ha (by simp [h])
+    simp only [List.cons_append, splitFirst, hx, ↓reduceIte, ih hxs]
+
+/-- the regenerated fact the round-trip theorems stand on: executor/point_data.go cuts the id off
+    at the FIRST `#` (`strings.SplitN(point, "#", 2)`) -/
+theorem idSplitFirst_current : Gen.Point.idSplitFirst = true := by decide
+
 end PebblesVerif.Point
